@@ -36,6 +36,24 @@ var contractKinds = []string{"ensures", "requires", "loop", "frame", "term", "su
 var props = map[string]*PropDef{}
 
 func init() {
+	props["C14"] = &PropDef{
+		Funcs: []string{
+			`(*keytab.Keytab).GetEncryptionKey`, `(*keytab.Keytab).Unmarshal`,
+			`keytab.readInt8`, `keytab.readInt16`, `keytab.readInt32`, `keytab.readBytes`, `keytab.readTimestamp`, `keytab.parsePrincipal`,
+		},
+		Kinds:           kinds(contractKinds...),
+		NeedObligations: true,
+		QuickTimeout:    20,
+		Assumptions: []string{
+			"isNativeEndianLittle (unsafe) is trusted; bytes.Buffer / binary.Read models are exact on the buffer contents (trusted stdlib)",
+			"kvno passed to GetEncryptionKey satisfies 0 <= kvno < 2^32 (precondition from the property's quantifier; uint32(kvno) truncates outside it)",
+		},
+		NotDecided: []string{
+			"round trip Unmarshal(Marshal(kt)) == kt and agreement with an independent reader of whole files (entry-level format spec not yet under contract)",
+			"parsePrincipal's error is dropped by Unmarshal (observed, not yet an obligation)",
+		},
+		LevelNote: "Lookup: GetEncryptionKey is proved against the matching rule kmatch of the property (both directions stated in the property, and newest-timestamp preference) for every keytab and query. Parsing: the readers are proved to decode exactly the bytes at the cursor in the file's byte order and to advance it; Unmarshal is proved memory-safe and terminating.",
+	}
 	props["C04"] = &PropDef{
 		Funcs: []string{
 			// decoders
@@ -73,7 +91,7 @@ func init() {
 		SkipInlinable: true,
 		Kinds:         kinds(safetyKinds...),
 		AllocBound:    true,
-		QuickTimeout:  5,
+		QuickTimeout:  8,
 		Assumptions: []string{
 			"trusted externals (gofork/asn1, rpc/v2 ndr+mstypes, regexp, bufio, stdlib crypto, net) do not panic, hang or over-allocate on any input: they are not verified here",
 			"values returned by asn1.Unmarshal / ndr.Decode are arbitrary type-valid values (empty sequences included)",
